@@ -40,6 +40,10 @@ import (
 //	         the function a FailFS is constructed with) after the second call
 //	         (the removal is seen by histories of three calls: thorough tier)
 //
+// After the schedule the plan name may name a family of derived file systems
+// the history starts with and the member of it that receives the SetFailFunc
+// calls: plan[@[when]~family] (family.go).
+//
 // The SetFailFunc calls are a schedule keyed on the position in the history
 // rather than letters, so that they do not use up the history bound: "open;
 // install; call on the old handle" is a history of length 2.
@@ -77,8 +81,11 @@ func splitPlan(name string) (plan, when string) {
 // lateWhen is the schedule "no function for the first n calls".
 func lateWhen(n int) string { return "late" + strconv.Itoa(n) }
 
-// whenEvents is the schedule of SetFailFunc calls of a plan name.
+// whenEvents is the schedule of SetFailFunc calls of a plan name (the family
+// part, family.go, says on which object they are made, not when).
 func whenEvents(when string) ([]fnEvent, error) {
+	when, _ = splitWhen(when)
+
 	switch {
 	case when == "":
 		return []fnEvent{{0, "plan"}}, nil
@@ -94,6 +101,8 @@ func whenEvents(when string) ([]fnEvent, error) {
 }
 
 func whenDesc(when string) string {
+	when, _ = splitWhen(when)
+
 	switch {
 	case when == "":
 		return "the function of the plan is installed before the first call"
@@ -111,15 +120,28 @@ func (s *sys) setWhen(when string) error {
 		return err
 	}
 
-	s.when, s.fnEvents = when, ev
+	sched, fam := splitWhen(when)
+
+	f, err := parseFamily(fam)
+	if err != nil {
+		return err
+	}
+
+	s.when, s.sched, s.famName, s.fam, s.fnEvents = when, sched, fam, f, ev
 
 	return nil
 }
 
-// target is the FailFS that carries the function of the plan.
+// fnTarget is the FailFS SetFailFunc is called on: the FailFS under test, the
+// lower FailFS of a plan stack (stack.go), or the member of the family of
+// derived file systems the system names (family.go) - they all share the one
+// function.
 func (s *sys) fnTarget() *failfs.FailFS {
-	if planOnLower(s.stack) {
+	switch {
+	case planOnLower(s.stack):
 		return s.impl.lower
+	case s.fam != nil:
+		return s.famTarget()
 	}
 
 	return s.ff
